@@ -609,8 +609,25 @@ pub fn validate_room(drv: &mut crate::drv::Drv, events: &[Event], obs: &mut Vec<
 /// carries what `remove_obsolete_files` consulted, every path it looked at and what it marked.
 pub fn validate_obsolete(drv: &mut crate::drv::Drv, events: &[Event], obs: &mut Vec<Obs>, stats: &mut Stats, at: usize) {
     for ev in events {
-        let Event::ObsoletePass { live, wal_number, prev_wal_number, manifest_number, listed, deleted } = ev else { continue };
+        let Event::ObsoletePass { live, wal_number, prev_wal_number, manifest_number, listed, listing, deleted } = ev else { continue };
         stats.obsolete_passes += 1;
+        // the pass must LOOK at every entry of the three listings that is not a directory (the model's
+        // pass is a filter over the whole listing: a scan that stops early keeps dead files for ever)
+        {
+            let looked: std::collections::BTreeSet<&String> = listed.iter().map(|(_, p)| p).collect();
+            for (folder, path) in listing {
+                if looked.contains(path) {
+                    continue;
+                }
+                let is_dir = TABLE_SIZES.with(|f| f.borrow().as_ref().map_or(true, |fs| {
+                    use raindb::fs::FileSystem;
+                    fs.is_dir(std::path::Path::new(path)).unwrap_or(true) || fs.read_file(std::path::Path::new(path)).is_none()
+                }));
+                if !is_dir {
+                    obs.push(Obs { sig: "c11:deletion-pass-outside-the-verified-decision".into(), what: format!("the deletion pass never looked at {path} although list_dir returned it for the {folder} folder: the model's pass (Rain.FileNames.survivors) decides on every name of the listing"), at });
+                }
+            }
+        }
         let marked: std::collections::BTreeSet<&String> = deleted.iter().collect();
         for folder in ["wal", "data", "main"] {
             let paths: Vec<&String> = listed.iter().filter(|(f, _)| *f == folder).map(|(_, p)| p).collect();
